@@ -66,7 +66,7 @@ CHECKS = {
 m = {
  "version": 1,
  "setup_cmd": "bin/check --setup",
- "hooks": {"guard": "verif", "enable": "checks copy /repo's working tree to a scratch directory, instrument it with /verif/simrewrite and build with `go build -race -tags verif`", "baseline_off_cmd": "cd /repo && GOFLAGS=-mod=mod go test -json -vet=off -count=1 -timeout 25m ./...", "source_commits": ["a3bf724", "4229e13"], "add_only": True},
+ "hooks": {"guard": "verif", "enable": "checks copy /repo's working tree to a scratch directory, instrument it with /verif/simrewrite and build with `go build -race -tags verif`", "baseline_off_cmd": "cd /repo && GOFLAGS=-mod=mod go test -json -vet=off -count=1 -timeout 25m ./...", "source_commits": ["a3bf724", "4229e13", "dcdefcd", "18d7ec3", "e2c8cc0"], "add_only": True},
  "engines": [
    {"name": "simrt", "path": "simrt", "serves_properties": sorted(CHECKS), "kind_free_text": "deterministic scheduler runtime (Go): tasks, tape, channel/WaitGroup/Mutex models, RangeMap, logical clock; baton invisible to the race detector"},
    {"name": "simrewrite", "path": "simrewrite", "serves_properties": sorted(CHECKS), "kind_free_text": "type-directed source instrumenter applied to a scratch copy of /repo"},
